@@ -4,6 +4,7 @@ let props : (string * (module Frame.PROP)) list = [
   ("C03", (module C03));
   ("C04", (module C04));
   ("C05", (module C05));
+  ("C06", (module C06));
   ("C07", (module C07));
   ("C08", (module C08));
   ("C09", (module C09));
